@@ -625,3 +625,32 @@ func c17ProofWalkerPrefix(c *core.Ctx) {
 	}
 	c.Check("proof.get:shortNode.Key-is-prefix-of-remaining-key", "comparison-shape", good >= 1 && bad == 0, pos, "the walker compares the node's key with the front of the remaining search key (%d such comparison(s), %d other)", good, bad)
 }
+
+// c03FilterAndSaveUnderOneHold: the confirms of one deputy are counted once only if the filter that decides which received confirms are
+// new (VerifyConfirmPacket reads the confirms the block already has) and the save of what it let through run under one hold of the
+// engine's chain lock — two packets verified before either is saved both pass. Every call of either in package consensus holds chainLock
+// (the clause of C19.1 for these two callees, evaluated under C03).
+func c03FilterAndSaveUnderOneHold(c *core.Ctx) {
+	const cons = "chain/consensus"
+	la := lockAnalysis(c)
+	key := "consensus.DPoVP.chainLock"
+	n := 0
+	for _, m := range []*types.Func{c.Method(cons+".Validator", "VerifyConfirmPacket"), c.Method(cons+".Confirmer", "SaveConfirm")} {
+		_, sites := callersOf(c, m)
+		for _, s := range sites {
+			if core.RelPkg(s.Caller) != cons {
+				continue
+			}
+			if m.Name() == "SaveConfirm" {
+				a := s.Instr.Common().Args
+				if len(a) == 3 && core.SliceHasCall(core.Slice(a[2]), c.Method(cons+".Confirmer", "confirmBlock")) {
+					continue // the node's own fresh signature: de-duplicated by the store
+				}
+			}
+			n++
+			ok, why := la.Held(s.Instr, key, core.WriteHeld)
+			c.Check("lock/"+objName(m)+"@"+shortFn(s.Caller), "lockset", ok, s.Instr.Pos(), "call of %s in %s must hold %s: %s", objName(m), shortFn(s.Caller), key, orOK(why))
+		}
+	}
+	c.Floor("confirm-filter-and-save/sites", n, 2)
+}
